@@ -792,6 +792,8 @@ fn first_difference(a: &str, b: &str) -> (String, String) {
 }
 
 const SIG_COLLISION: &str = "c04:container-move-copy-collision";
+const SIG_DUP_DOC: &str = "c04:document-with-duplicate-paths-accepted";
+const SIG_EMPTY_SN_C04: &str = "c04:empty-short-name-element-not-indexed";
 const SIG_ANCESTOR: &str = "c12:move-to-ancestor-parent-locked";
 const SIG_MIXED_C03: &str = "c03:mixed-set-cdata-drops-children";
 const SIG_MIXED_C04: &str = "c04:mixed-set-cdata-drops-children";
@@ -1861,10 +1863,27 @@ impl Checker {
             if ok && before_sn_trigger {
                 self.before_short_name = true;
             }
-            if self.on("C04") || container_op || mixed_hit {
+            // a loaded DOCUMENT in which two identifiable elements have one path is accepted by the loader (known finding
+            // c04:document-with-duplicate-paths-accepted): decided here from the elements this load created, by their own names
+            let dup_doc = ok && verb == "load" && {
+                let new_ids: Vec<usize> = ans.split(' ').skip(4).filter_map(|w| handle(w, 'e')).collect();
+                let mut ps: Vec<String> = new_ids.iter().filter_map(|i| self.w.elems.get(*i)).filter(|e| e.is_identifiable()).filter_map(|e| e.path().ok()).collect();
+                ps.sort();
+                ps.windows(2).any(|w2| w2[0] == w2[1])
+            };
+            if self.on("C04") || container_op || mixed_hit || dup_doc {
                 let mut v = vec![];
                 self.c04(&snaps, &mut v);
-                if !v.is_empty() && container_op {
+                if !v.is_empty() && dup_doc {
+                    let first = v.remove(0);
+                    v = vec![Failure::known("C04", SIG_DUP_DOC, format!("after `{}` (the document itself holds two identifiable elements with one path): {}", req.chars().take(60).collect::<String>(), first.msg))];
+                    self.stop_c456 = true;
+                } else if !v.is_empty() && snaps.iter().any(|s| s.pre.iter().any(|(_, e, _)| e.is_identifiable() && e.item_name().is_none())) {
+                    // an identifiable element whose SHORT-NAME holds no text (accepted by the loader: known finding
+                    // c08:empty-short-name-accepted) has the path "" and no index entry
+                    let first = v.remove(0);
+                    v = vec![Failure::known("C04", SIG_EMPTY_SN_C04, format!("after `{}` (an element with an EMPTY SHORT-NAME is part of the model): {}", req.chars().take(60).collect::<String>(), first.msg))];
+                } else if !v.is_empty() && container_op {
                     let first = v.remove(0);
                     v = vec![Failure::known("C04", SIG_COLLISION, format!("after `{req}` (subject is not identifiable): {}", first.msg))];
                     self.stop_c456 = true;
@@ -2320,7 +2339,8 @@ pub fn run_replay(out: &str, file: &str, prop: Option<&str>, kind: Option<&str>)
 // 2. history generator
 // ------------------------------------------------------------------------------------------------
 
-const UNIVERSE: [&str; 8] = ["a", "a1", "a10", "a1b", "a2", "pkg1", "pkg10", "b"];
+// (the last name ends in digits whose value does not fit u64: `decompose_item_name` must fall back to the whole name, seed C12_6)
+const UNIVERSE: [&str; 9] = ["a", "a1", "a10", "a1b", "a2", "pkg1", "pkg10", "b", "a18446744073709551616"];
 const TEXT_POOL: [&str; 22] = ["0", "1", "8", "42", "0x1F", "017", "true", "false", "abc", "CAT", "x_1", "1.0.0", "2.3.4_rc", "/a/b", "a b", "", "-5", "+7", "0b101", "2024-01-01", "hello world", "a<b&c"];
 const BAD_NAMES: [&str; 5] = ["", "1a", "a-b", "a b", "/a"];
 
@@ -3305,6 +3325,11 @@ impl Gen {
             if !present.is_empty() {
                 let n = present[self.rng.below(present.len())];
                 let bad = if self.rng.chance(1, 2) { format!("1{n}") } else { format!("{n}-x") };
+                // (the replacement must not collide with a name that is already in the document: two elements with one path in one
+                // document are accepted by the loader - known finding c04:document-with-duplicate-paths-accepted - and not wanted here)
+                if text.contains(&format!("<SHORT-NAME>{bad}</SHORT-NAME>")) {
+                    return;
+                }
                 text = text
                     .replace(&format!("<SHORT-NAME>{n}</SHORT-NAME>"), &format!("<SHORT-NAME>{bad}</SHORT-NAME>"))
                     .replace(&format!("/{n}/"), &format!("/{bad}/"))
